@@ -1,8 +1,32 @@
 (* C03 -- A resolved model is concrete and is a fixed point of resolution.
-   Statements only; proofs are [exact] of lemmas in Resolver/FixFacts.v. *)
+   Statements only; proofs are [exact] of lemmas in Resolver/FixFacts.v, Resolver/ModelFix.v, Resolver/Rendered.v.
+
+   WHAT IS PROVED, FOR WHICH EXPRESSIONS.
+   * "concrete" (no function object left): for every expression ([C03_no_function_left]).
+   * "fixed point" (m.resolve(p).resolve(p) == m.resolve(p)): the UNCONDITIONAL claim is false of the code and of the model
+     ([C03_fixed_point_refuted]; known findings F20 and F14b).  Two kinds of theorem are given.
+     (a) With a hypothesis on the RESULT of the first resolution -- it is function-free and every text in it is already in
+         rendered form: [C03_fixed_point], [C03_resolve_twice], [C03_model_fixed_point].  These say what a fixed point looks
+         like; by themselves they do not say WHICH results are rendered.
+     (b) With hypotheses on the INPUT only, for the fragment [builds_no_text] of expressions (Resolver/Rendered.v): in every
+         position whose value reaches the result there is only
+             a leaf (null, boolean, integer, text, float/date atom), a list or an object of such,
+             Ref / Fn::ImportValue, Fn::GetAtt, Fn::GetAZs, Fn::If (both branches), Fn::Select (its list)
+         -- whatever stands INSIDE a Ref / GetAtt / GetAZs body or in a Select index.  For these, the result of resolution IS
+         rendered ([C03_rendered_output]), function-free ([C03_fragment_no_function_left]) and a fixed point
+         ([C03_fragment_fixed_point]; for whole templates [C03_fragment_model_fixed_point]).  Environment hypotheses, each a
+         boolean: [params_rendered] (a value stored under an SSM-shaped name name:version is itself rendered -- an SSM reference
+         returns it as it is; ordinary parameters may hold "True", "FALSE", ...) and [params_plainb] (parameter values hold no
+         objects).  Both hold on a realistic environment ([C03_fragment_hyps_hold]) and both are needed
+         ([C03_ssm_value_must_be_rendered], [C03_object_parameter_breaks_no_fn]).
+     The REST is not a fixed point in general and stays a KNOWN FINDING: text BUILT by Fn::Join, Fn::Sub, Fn::Split, Fn::Base64
+     (F20: it may spell TRUE or an SSM reference and is stored as built), a mapping leaf returned by Fn::FindInMap (F14b), and a
+     condition function (Condition, Fn::And/Or/Not/Equals) in a value position (its Python bool becomes text the second time).
+     The boundary is tight: one witness per excluded construct, using that construct and literals only
+     ([C03_boundary_*]); Fn::Select, named in F20, builds nothing and is inside the fragment ([C03_select_only_passes_on]). *)
 From Coq Require Import List Bool NArith ZArith.
 From PV Require Import Base.Str Base.Value Resolver.Consts Resolver.Text Resolver.Resolve Resolver.Spec Resolver.SubFacts
-  Resolver.Template Resolver.FixFacts Resolver.ModelFix.
+  Resolver.Template Resolver.FixFacts Resolver.ModelFix Resolver.Rendered.
 Import ListNotations.
 Local Open Scope N_scope.
 
@@ -51,6 +75,106 @@ Definition e3 : env := {| params := [([80], VStr [84;114;117;101])]; mappings :=
 Example C03_ex : exists r, resolve e3 (VDict [([78], VDict [(K_Ref, VStr [80])]); ([76], VList [VBool true; VInt 7; VDict [(K_Ref, VStr [90])]])]) = Ok r
   /\ no_fn_dict r = true /\ rendered (params e3) r = true /\ resolve e3 r = Ok r.
 Proof. eexists. split; [vm_compute; reflexivity|]. repeat split; vm_compute; reflexivity. Qed.
+
+(* ---- WHICH results are rendered: the fragment of expressions that build no text (Resolver/Rendered.v) ---- *)
+
+(* rendering is idempotent, given that the values an SSM reference can fetch (parameters named name:version) are rendered *)
+Theorem C03_render_idempotent : forall ps s, params_rendered ps = true ->
+  render_str ps (render_str ps s) = render_str ps s.
+Proof. exact (fun ps s H => render_str_idem ps s (params_rendered_ssm ps H)). Qed.
+Print Assumptions C03_render_idempotent.
+
+(* the result of resolving an expression of the fragment IS rendered: the hypothesis of C03_fixed_point, proved of the output *)
+Theorem C03_rendered_output : forall e v r, params_rendered (params e) = true ->
+  builds_no_text v = true -> resolve e v = Ok r -> rendered (params e) r = true.
+Proof. exact resolve_rendered. Qed.
+Print Assumptions C03_rendered_output.
+
+(* ... and function-free; no hypothesis on the Mappings here (Fn::FindInMap cannot reach the result) *)
+Theorem C03_fragment_no_function_left : forall e v r, params_plainb (params e) = true ->
+  fn_keys_alone v = true -> builds_no_text v = true -> resolve e v = Ok r -> no_fn_dict r = true.
+Proof. exact fragment_no_function_left. Qed.
+Print Assumptions C03_fragment_no_function_left.
+
+(* resolve(resolve(v)) = resolve(v) with hypotheses on the INPUT only *)
+Theorem C03_fragment_fixed_point : forall e v r, params_rendered (params e) = true -> params_plainb (params e) = true ->
+  fn_keys_alone v = true -> builds_no_text v = true -> resolve e v = Ok r -> resolve e r = Ok r.
+Proof. exact fragment_fixed_point. Qed.
+Print Assumptions C03_fragment_fixed_point.
+
+(* the hypotheses hold on a realistic environment (pseudo parameters, Env = "True", a list parameter, a float, an SSM value) and
+   expression (Ref, Fn::If with AWS::NoValue, an SSM reference, Fn::Select, Fn::GetAtt, an undefined Ref); resolution changes the
+   expression and the result is a fixed point *)
+Theorem C03_fragment_hyps_hold :
+  params_rendered ps_real = true /\ params_plainb ps_real = true /\
+  fn_keys_alone v_real = true /\ builds_no_text v_real = true /\
+  exists r, resolve e_real v_real = Ok r /\ r <> v_real /\ resolve e_real r = Ok r.
+Proof. exact env_hyps_hold. Qed.
+Print Assumptions C03_fragment_hyps_hold.
+
+(* [params_rendered] is needed: "/p:1" = "TRUE"; the plain text "{{resolve:ssm:/p:1}}" resolves to "TRUE", then to "true" *)
+Theorem C03_ssm_value_must_be_rendered :
+  params_rendered ps_ssm_TRUE = false /\ builds_no_text v_ssm_ref = true /\
+  resolve e_ssm_TRUE v_ssm_ref = Ok (VStr [84;82;85;69]) /\ rendered ps_ssm_TRUE (VStr [84;82;85;69]) = false /\
+  resolve e_ssm_TRUE (VStr [84;82;85;69]) = Ok (VStr S_true).
+Proof. exact ssm_value_must_be_rendered. Qed.
+Print Assumptions C03_ssm_value_must_be_rendered.
+
+(* [params_plainb] is needed: P = {"Ref": "x", "y": "AWS::NoValue"}; {"Ref": "P"} resolves to the function object {"Ref": "x"} *)
+Theorem C03_object_parameter_breaks_no_fn :
+  params_plainb ps_objparam = false /\ params_rendered ps_objparam = true /\
+  exists r, resolve {| params := ps_objparam; mappings := []; conds := fun _ => Ok true |} (VDict [(K_Ref, VStr [80])]) = Ok r /\
+            no_fn_dict r = false.
+Proof. exact object_parameter_breaks_no_fn. Qed.
+Print Assumptions C03_object_parameter_breaks_no_fn.
+
+(* THE BOUNDARY IS TIGHT.  For each construct outside the fragment, an expression made of that construct and literals only:
+   it is outside, its result is not rendered, and a second resolution changes the result. *)
+Definition changes_on_second_resolution (e : env) (v : value) : Prop :=
+  builds_no_text v = false /\
+  exists r r2, resolve e v = Ok r /\ rendered (params e) r = false /\ resolve e r = Ok r2 /\ r2 <> r.
+
+(* {"Fn::Join": ["", ["TR", "UE"]]} -> "TRUE" -> "true"                                                   (F20) *)
+Theorem C03_boundary_join : changes_on_second_resolution e_empty join_TR_UE.
+Proof. exact boundary_join. Qed.
+Print Assumptions C03_boundary_join.
+(* {"Fn::Sub": ["${A}${B}", {"A": "TR", "B": "UE"}]} -> "TRUE" -> "true"                                    (F20) *)
+Theorem C03_boundary_sub : changes_on_second_resolution e_empty sub_TR_UE.
+Proof. exact boundary_sub. Qed.
+Print Assumptions C03_boundary_sub.
+(* {"Fn::Split": [",", "TRUE,x"]} -> ["TRUE", "x"] -> ["true", "x"]                                        (F20) *)
+Theorem C03_boundary_split : changes_on_second_resolution e_empty split_TRUE_x.
+Proof. exact boundary_split. Qed.
+Print Assumptions C03_boundary_split.
+(* Mappings {"M": {"a": {"b": "TRUE"}}}; {"Fn::FindInMap": ["M", "a", "b"]} -> "TRUE" -> "true"              (F14b) *)
+Theorem C03_boundary_find_in_map : changes_on_second_resolution e_map_TRUE find_TRUE.
+Proof. exact boundary_find_in_map. Qed.
+Print Assumptions C03_boundary_find_in_map.
+(* {"Fn::Base64": "M\u0015\u0004"} -> "TRUE" (base64 of the bytes 4D 15 04) -> "true"                       (F20) *)
+Theorem C03_boundary_base64 : changes_on_second_resolution e_empty base64_TRUE.
+Proof. exact boundary_base64. Qed.
+Print Assumptions C03_boundary_base64.
+(* leaves: the bytes 4D 15 04 (rendered as their base64 text "TRUE"); a typed atom carrying the text "TRUE" *)
+Theorem C03_boundary_atoms :
+  changes_on_second_resolution e_empty (VBytes [77;21;4]) /\ changes_on_second_resolution e_empty (VTyped KFloat [84;82;85;69]).
+Proof. exact (conj boundary_bytes boundary_typed). Qed.
+Print Assumptions C03_boundary_atoms.
+(* condition functions in a value position: the Python bool becomes the text "true" / "false" the second time *)
+Theorem C03_boundary_condition_functions :
+  changes_on_second_resolution e_empty (VDict [(K_Equals, VList [VStr [97]; VStr [97]])]) /\
+  changes_on_second_resolution e_empty (VDict [(K_Condition, VStr [99])]) /\
+  changes_on_second_resolution e_empty (VDict [(K_And, VList [VStr S_true])]) /\
+  changes_on_second_resolution e_empty (VDict [(K_Or, VList [VStr S_true])]) /\
+  changes_on_second_resolution e_empty (VDict [(K_Not, VList [VStr S_true])]).
+Proof. exact (conj boundary_condition_function boundary_condition_functions_all). Qed.
+Print Assumptions C03_boundary_condition_functions.
+(* Fn::Select (named in F20) builds nothing: over literals its result is rendered; it only passes on what Fn::Split built *)
+Theorem C03_select_only_passes_on :
+  builds_no_text (VDict [(K_Select, VList [VStr [48]; VList [VStr [84;82;85;69]; VStr [120]]])]) = true /\
+  resolve e_empty (VDict [(K_Select, VList [VStr [48]; VList [VStr [84;82;85;69]; VStr [120]]])]) = Ok (VStr S_true) /\
+  changes_on_second_resolution e_empty (VDict [(K_Select, VList [VStr [48]; split_TRUE_x])]).
+Proof. exact select_only_passes_on. Qed.
+Print Assumptions C03_select_only_passes_on.
 
 (* ---- the MODEL level: CFModel.resolve applied to its own result (Resolver/ModelFix.v) ---- *)
 
@@ -112,6 +236,29 @@ Theorem C03_model_fixed_point_ex :
     resolve_model [] ex_decls [] [] ex_cs ex_rs' = Ok (model_out ex_cs ex_rs').
 Proof. exact model_fixed_point_ex. Qed.
 Print Assumptions C03_model_fixed_point_ex.
+
+(* THE MODEL-LEVEL FIXED POINT WITH HYPOTHESES ON THE TEMPLATE ONLY (fragment of Resolver/Rendered.v).
+   On the bound parameters: [params_rendered], [params_plainb].  On every resource of the template that is kept (its gate is open
+   under the resolved conditions cs): [resource_in_fragment] -- an object with distinct keys that is not a function object, every
+   member in the fragment ([fn_keys_alone], [builds_no_text]), a textual Type, and Type / Condition name texts that rendering
+   leaves alone.  Nothing is assumed about the result, the conditions, the Mappings, or the resources that were dropped. *)
+Theorem C03_fragment_model_fixed_point : forall pseudo decls extra maps cdecl rs ps cs rs',
+  bind_params pseudo decls extra = Ok ps ->
+  resolve_model pseudo decls extra maps cdecl rs = Ok (VDict [(K_Conditions, VDict cs); (K_Resources, VDict rs')]) ->
+  params_rendered ps = true -> params_plainb ps = true ->
+  (forall id r, In (id, r) rs -> gate_open (cond_bools cs) r = true -> resource_in_fragment ps r = true) ->
+  resolve_model pseudo decls extra maps cs rs' = Ok (VDict [(K_Conditions, VDict cs); (K_Resources, VDict rs')]).
+Proof. exact fragment_model_fixed_point. Qed.
+Print Assumptions C03_fragment_model_fixed_point.
+
+(* non-vacuity: on the template of C03_model_fixed_point_ex every hypothesis is a computation on the TEMPLATE and holds *)
+Theorem C03_fragment_model_ex :
+  exists ps,
+    bind_params [] ex_decls [] = Ok ps /\ params_rendered ps = true /\ params_plainb ps = true /\
+    forallb (fun kv => resource_in_fragment ps (snd kv)) ex_rs = true /\
+    resolve_model [] ex_decls [] [] ex_cdecl ex_rs = Ok (model_out ex_cs ex_rs').
+Proof. exact fragment_model_ex. Qed.
+Print Assumptions C03_fragment_model_ex.
 
 (* the NAME in a resource's Condition attribute is a literal, like its Type: conditions named True (holds) and true (does not),
    a resource with Condition: True.  The resolved model still says True and resolving it again keeps the resource.  (The code as
